@@ -35,7 +35,8 @@ type Scenario struct {
 	P, F   int // preemption / fault bounds
 	D      int // delay bound: any non-default scheduling choice costs one delay (0 = unbounded, i.e. classic preemption bounding; <0 = default schedule only)
 	Cfg    mc.Config
-	MaxExe int64 // execution cap for this scenario (0 = none); hitting it makes the run non-exhaustive
+	MaxExe int64                    // execution cap for this scenario (0 = none); hitting it makes the run non-exhaustive
+	Cases  func(tr *mc.Trace) int64 // optional: input cases enumerated inside one execution (for the evidence)
 	Note   string
 }
 
@@ -71,6 +72,7 @@ type Stats struct {
 	SampleLong  []string       `json:"-"`
 	WallS       float64        `json:"wall_s"`
 	Note        string         `json:"note,omitempty"`
+	Cases       int64          `json:"input_cases_inside_executions,omitempty"`
 	MaxDepth    int            `json:"max_choice_depth"`
 	fpSet       map[uint64]struct{}
 	shardStates int64
@@ -143,6 +145,9 @@ func runOne(sc *Scenario, prefix []int, st *Stats) *mc.Trace {
 	st.Reasons[tr.Reason]++
 	if len(tr.Points) > st.MaxDepth {
 		st.MaxDepth = len(tr.Points)
+	}
+	if sc.Cases != nil {
+		st.Cases += sc.Cases(tr)
 	}
 	pre, fl := cost(tr.Points, len(tr.Points))
 	if pre > st.MaxPre {
@@ -563,6 +568,7 @@ func merge(st *Stats, r *resultMsg) {
 	s := r.Stats
 	st.Execs += s.Execs
 	st.Steps += s.Steps
+	st.Cases += s.Cases
 	st.shardStates += s.States
 	if s.MaxPre > st.MaxPre {
 		st.MaxPre = s.MaxPre
